@@ -95,7 +95,7 @@ def literal_value(s):
     return float(s)
 
 
-def evaluate(a, prims, budget=None):
+def evaluate(a, prims):
     """prims: {"unary": {...}, "binary": {...}} -- the primitive operator tables."""
     k = a[0]
     if k == "n":
